@@ -128,4 +128,45 @@ PROPS = {
         "trusted_base": ["model of the six message kinds (Cose.Msg.Model) hand-written, tied by correspondence; to-be-authenticated literals regenerated", "Lean crypto references for predicting verdicts"],
         "assumptions": ["value round trips of Key / Headers / recipients are tied by correspondence ops (map.unmarshal, msg.*), not by a general theorem"],
     },
+    "C16": {
+        "modules": ["Cose.Props.C16"], "families": ["impl:C16", "key", "sig", "ecdh"], "spec_ops": ["impl.malformed"],
+        "n_quick": 1000, "n_thorough": 100000,
+        "rule": "keys of the 8 families with key_ops subsets of 1..10 in the representations key.Ops / []int / []any of mixed integer kinds, set before construction and changed (same / deleted / new list / malformed) "
+                "after construction; per case the implementation is constructed and each operation attempted (create+verify, encrypt+decrypt, sign, verify, derive); malformed key_ops via the spec op impl.malformed",
+        "trusted_base": ["key layer model (Cose.Key.*) hand-written, tied by correspondence; family whitelists regenerated from the CheckKey skeletons"],
+        "assumptions": ["known finding D9 (uninterpretable key_ops lift the restriction) is listed in known_findings.txt and proved as malformed_ops_unusable_cex"],
+    },
+    "C17": {
+        "modules": ["Cose.Props.C17"], "families": ["key", "impl", "sig"], "spec_ops": [],
+        "n_quick": 1000, "n_thorough": 100000,
+        "rule": "symmetric / Ed25519 / ECDSA keys with optional and broken members (kty, alg in every Go kind or absent or foreign, kid, key_ops, Base IV, extra labels, wrong sizes), nil key; "
+                "key.info (kty/alg/ops/kid/baseIV), key.factory for the four kinds (registered / not registered / invalid), behaviour of the obtained implementation",
+        "trusted_base": ["key layer model hand-written, tied by correspondence; registry regenerated from register.go"],
+        "assumptions": ["JSON / text round trips reduce to the CBOR round trip through ByteStr hex (same bytes); exercised by correspondence only through map.unmarshal"],
+    },
+    "C15": {
+        "modules": ["Cose.Props.C15"], "families": ["sig", "ecdh"], "spec_ops": [],
+        "n_quick": 500, "n_thorough": 40000,
+        "rule": "generated Ed25519 / P-256 / P-384 / P-521 / X25519 keys (one third with leading-zero coordinates or scalars) in the forms private, private+public, public padded / stripped / over-padded, compressed; "
+                "ToPublicKey, ToCompressedKey, the key a verifier reports, mismatching embedded public keys, off-curve x; dumps compared byte for byte with the model",
+        "trusted_base": ["Lean curve arithmetic (KATs + differential run); key layer model tied by correspondence"],
+        "assumptions": ["group law / point derivation correctness of Go and of the Lean reference assumed, compared against each other"],
+    },
+    "C10": {
+        "modules": ["Cose.Props.C10"], "families": ["sig"], "spec_ops": ["sig.verify"],
+        "n_quick": 500, "n_thorough": 40000,
+        "rule": "ES256/384/512 + EdDSA x keys incl. leading-zero scalars/coordinates x messages 0..70000 bytes; library-made signatures (and r at the codec boundary values 1, 2^k, n-1) verified by the Lean "
+                "ECDSA / Ed25519 reference under public keys in derived / exported / compressed form; every signature then mutated (bit flip, truncation, extension, leading zero, random) and the verdicts compared; "
+                "Ed25519 signatures byte-identical",
+        "trusted_base": ["Lean ECDSA / Ed25519 / SHA-2 reference (RFC 6979, RFC 8032 KATs + this run)"],
+        "assumptions": ["signature correctness and unforgeability are not theorems"],
+    },
+    "C14": {
+        "modules": ["Cose.Props.C14"], "families": ["ecdh"], "spec_ops": ["ecdh.symmetric", "ecdh.derive"],
+        "n_quick": 300, "n_thorough": 20000,
+        "rule": "4 curves x generated key pairs (one third with leading-zero coordinates) x remote key encodings {uncompressed, stripped, compressed, compressed with stripped x} + invalid remotes "
+                "(private, other curve, off-curve x, wrong lengths, all-zero, the seven low-order X25519 points); both directions on the library must agree with each other and with the Lean scalar multiplication / X25519 ladder",
+        "trusted_base": ["Lean Weierstrass / X25519 reference (RFC 7748 KATs + this run)"],
+        "assumptions": ["the group law behind symmetry is assumed, cross-checked"],
+    },
 }
